@@ -238,6 +238,14 @@ Theorem C15_spendable_not_locked : forall decodable scripts i s toks jt r,
 Proof. exact spendable_not_locked. Qed.
 Print Assumptions C15_spendable_not_locked.
 
+(* Database.get_txos' is_internal_transfer ("from me, to me, type other" = change) is never true for
+   an output whose opcodes say claim, update or support *)
+Theorem C15_internal_not_locked : forall decodable scripts i s toks mi mo,
+  nth_error scripts i = Some s -> tokenize s = TokOk toks -> locked_shape toks ->
+  internal_at decodable scripts i mi mo = false.
+Proof. exact internal_not_locked. Qed.
+Print Assumptions C15_internal_not_locked.
+
 (* the fuel of the executable model is never exhausted (the error value exists only in the model) *)
 Theorem C15_total : forall s, tokenize s <> TokErr TokFuel /\ parse_output s <> SFuel /\ parse_input s <> SFuel /\
   forall t, parse_sub t s <> SFuel.
